@@ -240,6 +240,31 @@ Theorem c12_pri_conservation : forall ops s, q_inv s ->
   Permutation (outs (fst r) ++ map eid (ents (snd r))) (map eid (ents s) ++ q_accs (fst r)).
 Proof. exact q_conservation. Qed.
 
+(* ================= the concurrent class "add versus close" (C12_Race.v) ================= *)
+(* what the driver accepts for a concurrent round: the harness' witness is a permutation of the calls that respects real-time
+   precedence and that the sequential model replays with exactly the observed results (the round is linearisable w.r.t. the
+   model), AND the clauses that hold for every linearisation (r_holds) - for this class case_sound is by this conjunction *)
+Theorem c12_race_accept_is_linearisable_and_holds : forall k n cs lin, pr_accept k n cs lin = true ->
+  r_lin_ok p_step (p_new k n) cs lin = true /\ pr_holds cs = true.
+Proof. exact pr_accept_spec. Qed.
+(* the round of seeded change r3-m1: an AddReq overlapping Close returns nil although the drain after Close had already reported
+   closed-and-empty, and the final drain finds the item - rejected by the monitor *)
+Theorem c12_ex_race_m1_rejected :
+  pr_holds [(PAdd 7%Z, RDone, 1%Z, 6%Z); (PClose, RDone, 2%Z, 3%Z); (PPopAnyway, RClosed, 4%Z, 5%Z);
+            (PPopAnyway, RItem 7%Z, 7%Z, 8%Z); (PPopAnyway, RClosed, 9%Z, 10%Z)] = false.
+Proof. exact ex_race_m1_rejected. Qed.
+Theorem c12_ex_race_refused_accepted :
+  pr_accept KMux 0%Z [(PAdd 7%Z, RClosed, 1%Z, 6%Z); (PClose, RDone, 2%Z, 3%Z); (PPopAnyway, RClosed, 4%Z, 5%Z);
+                      (PPopAnyway, RClosed, 7%Z, 8%Z)] [1; 2; 0; 3]%nat = true.
+Proof. exact ex_race_refused_accepted. Qed.
+Theorem c12_ex_race_before_close_accepted :
+  pr_accept KMux 0%Z [(PAdd 7%Z, RDone, 1%Z, 4%Z); (PClose, RDone, 2%Z, 3%Z); (PPopAnyway, RItem 7%Z, 5%Z, 6%Z);
+                      (PPopAnyway, RClosed, 7%Z, 8%Z); (PPopAnyway, RClosed, 9%Z, 10%Z)] [0; 1; 2; 3; 4]%nat = true.
+Proof. exact ex_race_before_close_accepted. Qed.
+Theorem c12_ex_race_bad_witness :
+  pr_accept KMux 0%Z [(PClose, RDone, 1%Z, 2%Z); (PAdd 7%Z, RDone, 3%Z, 4%Z); (PPopAnyway, RItem 7%Z, 5%Z, 6%Z)] [1; 0; 2]%nat = false.
+Proof. exact ex_race_bad_witness. Qed.
+
 (* ================= non-vacuity ================= *)
 Theorem c12_ex_pipe_accept :
   case_accept (CPipe KQ 2%Z [(PAdd 1%Z, RDone); (PAdd 2%Z, RDone); (PAdd 3%Z, RFull); (PPrior 9%Z, RDone); (PPop, RItem 9%Z);
@@ -319,6 +344,11 @@ Print Assumptions c12_pri_gtake_spec.
 Print Assumptions c12_pri_push_refused_iff_full.
 Print Assumptions c12_pri_capacity.
 Print Assumptions c12_pri_conservation.
+Print Assumptions c12_race_accept_is_linearisable_and_holds.
+Print Assumptions c12_ex_race_m1_rejected.
+Print Assumptions c12_ex_race_refused_accepted.
+Print Assumptions c12_ex_race_before_close_accepted.
+Print Assumptions c12_ex_race_bad_witness.
 Print Assumptions c12_ex_pipe_accept.
 Print Assumptions c12_ex_pipe_bound_off_by_one.
 Print Assumptions c12_ex_pipe_prior_at_back.
